@@ -12,14 +12,22 @@ def kind_a(report, tier, seed):
     report.guarded("generate_module_tensora shell", lowering_shell.generate_module, report)
 
 
+def extra(report, fam, tier, seed):
+    import projection_part
+    import fragments
+
+    report.guarded("projection of evaluate onto assemble / compute", projection_part.run, report, fam, tier, seed)
+    report.guarded("AppendOutput fragment triples", fragments.run_append_output, report, 4 if tier == "quick" else 5)
+
+
 def check(argv):
     return run(
-        "C04", argv, kind_a=kind_a, analyses=["compute_ro", "value_blind", "assemble_blind"],
+        "C04", argv, kind_a=kind_a, extra=extra, analyses=["compute_ro", "value_blind", "assemble_blind"],
         static_note="static analyses of standins/static_ir.py are sound over-approximations (declared pointer types, pointer-origin taint)",
         explanation="Kind A: KernelType.is_assemble/is_compute truth table proved; generate_module_tensora (callees opaque) computes one graph and one definition and generates every requested kind from them, in order. Kind B: to_ir_terminal_expression raises the same flags in every kernel kind and emits value work iff the kernel computes (symbolic expression, every output shape). Kind B, per kernel of the family and for all inputs: the compute kernel contains no allocation and no store to an integer array, a capacity "
                     "or a struct field (it cannot change the structure); no branch/loop condition, index or integer variable of any kernel depends on float data "
                     "(control flow and cursors are value-independent, so compute can be re-run on re-valued inputs); the assemble kernel reads no input values. "
-                    "Kind C: assemble;compute (compute run twice) against evaluate on the reference machine - identical structure, identical polynomial values.",
+                    "Kind B (per kernel, all inputs - the argument for the whole property): assemble IS evaluate with the value work removed and compute IS evaluate with the structure work removed (syntactic projection, plus a structure slice for loops that only move cursors nothing structural reads); no common or structure statement reads what value statements write and vice versa; compute allocates nothing and the arrays assemble hands back cover every position (write_cleanup triples) - hence assemble;compute leaves the structure and values of evaluate and a repeated compute repeats the same value statements. Kind C: assemble;compute (compute run twice) against evaluate on the reference machine - identical structure, identical polynomial values.",
     )
 
 
